@@ -54,6 +54,14 @@ Definition m_verify_sth o sig0 := verify_sth (digest_of o []) (rsa_of o sig0) (r
 Definition m_util o sig0 := util_verify_sct (digest_of o []) (rsa_of o sig0) (rs_of o) (rs_of o).
 Definition m_json o msg0 sig0 := new_from_signed_json (digest_of o msg0) (rsa_of o sig0) (rs_of o) (rs_of o) (json_of o msg0).
 
+Inductive code_sweep := HashCodes (a : N) | SigCodes (h : N).
+Definition codes256 : list N := map N.of_nat (seq 0 256).
+Definition sweep_pairs (w : code_sweep) : list (N * N) :=
+  match w with
+  | HashCodes a => map (fun h => (h, a)) codes256
+  | SigCodes h => map (fun a => (h, a)) codes256
+  end.
+
 Inductive case :=
 | CVerify (k : key) (data : bytes) (sg : dsig) (o : oracle) (obs : outcome)
 | CDer (sig : bytes) (obs : option (Z * Z * N))          (* R, S, len(rest) *)
@@ -63,7 +71,18 @@ Inductive case :=
 | CSct (k : key) (s : sct) (e : tentry) (o : oracle) (obs : outcome)
 | CSth (k : key) (s : sth) (o : oracle) (obs : outcome)
 | CUtil (allow : bool) (k : key) (s : sct) (e : tentry) (o : oracle) (obs : outcome)
-| CJson (k : key) (data raw : bytes) (o : oracle) (obs : outcome).
+| CJson (k : key) (data raw : bytes) (o : oracle) (obs : outcome)
+(* sweeps over the declared algorithm codes: ONE key, message (signed object) and signature value,
+   presented under all 256 hash codes with a fixed signature code, or all 256 signature codes with
+   a fixed hash code; observed: the (hash, sigalg) pairs that were accepted resp. panicked, every
+   other pair of the sweep returned an error *)
+| CVerifyCodes (k : key) (data sig : bytes) (o : oracle) (w : code_sweep) (oks panics : list (N * N))
+| CSctCodes (k : key) (s : sct) (e : tentry) (o : oracle) (w : code_sweep) (oks panics : list (N * N))
+| CSthCodes (k : key) (s : sth) (o : oracle) (w : code_sweep) (oks panics : list (N * N))
+(* tls.CreateSignature: dynamic type of the private key, hash code asked for, whether the
+   standard library's signing primitive succeeds for that key and hash (measured directly),
+   observed result: the (hash, signature) codes the returned DigitallySigned declares *)
+| CCreate (pk : privkind) (h : N) (sign_ok : bool) (obs : res (N * N)).
 
 Definition der_view (sig : bytes) : option (Z * Z * N) :=
   match der_rs sig with Some (r, s, rest) => Some (r, s, N.of_nat (length rest)) | None => None end.
@@ -77,6 +96,40 @@ Definition res_bytes_eqb (a b : res bytes) : bool :=
   | _, _ => false
   end.
 
+Definition res_codes_eqb (a b : res (N * N)) : bool :=
+  match a, b with
+  | Ok (h, g), Ok (h', g') => N.eqb h h' && N.eqb g g'
+  | Err, Err | Panic, Panic => true
+  | _, _ => false
+  end.
+
+(* the same signed object declaring other algorithm codes *)
+Definition with_codes (d : dsig) (h a : N) : dsig := {| ds_hash := h; ds_alg := a; ds_sig := ds_sig d |}.
+Definition sct_with_codes (s : sct) (h a : N) : sct :=
+  {| sct_version := sct_version s; sct_logid := sct_logid s; sct_ts := sct_ts s; sct_ext := sct_ext s;
+     sct_sig := with_codes (sct_sig s) h a |}.
+Definition sth_with_codes (s : sth) (h a : N) : sth :=
+  {| sth_version := sth_version s; sth_size := sth_size s; sth_ts := sth_ts s; sth_root := sth_root s;
+     sth_sig := with_codes (sth_sig s) h a |}.
+Definition pair_in (p : N * N) (l : list (N * N)) : bool :=
+  existsb (fun q => N.eqb (fst p) (fst q) && N.eqb (snd p) (snd q)) l.
+Definition observed_at (oks panics : list (N * N)) (p : N * N) : outcome :=
+  if pair_in p oks then OOk else if pair_in p panics then OPanic else OErr.
+Definition sweep_agrees (f : N -> N -> outcome) (w : code_sweep) (oks panics : list (N * N)) : bool :=
+  forallb (fun p => outcome_eqb (f (fst p) (snd p)) (observed_at oks panics p)) (sweep_pairs w).
+(* the first pair on which the model differs from the observation, and what the model says there *)
+Definition first_disagreement (f : N -> N -> outcome) (w : code_sweep) (oks panics : list (N * N)) : option outcome :=
+  match find (fun p => negb (outcome_eqb (f (fst p) (snd p)) (observed_at oks panics p))) (sweep_pairs w) with
+  | Some p => Some (f (fst p) (snd p))
+  | None => None
+  end.
+Definition mo_verify k data sig o (h a : N) : outcome :=
+  outcome_of (m_verify o data sig k data {| ds_hash := h; ds_alg := a; ds_sig := sig |}).
+Definition mo_sct k s e o (h a : N) : outcome :=
+  outcome_of (m_verify_sct o (ds_sig (sct_sig s)) k (sct_with_codes s h a) e).
+Definition mo_sth k s o (h a : N) : outcome :=
+  outcome_of (m_verify_sth o (ds_sig (sth_sig s)) k (sth_with_codes s h a)).
+
 Definition check (c : case) : bool :=
   match c with
   | CVerify k data sg o obs => outcome_eqb (outcome_of (m_verify o data (ds_sig sg) k data sg)) obs
@@ -88,6 +141,10 @@ Definition check (c : case) : bool :=
   | CSth k s o obs => outcome_eqb (outcome_of (m_verify_sth o (ds_sig (sth_sig s)) k s)) obs
   | CUtil allow k s e o obs => outcome_eqb (outcome_of (m_util o (ds_sig (sct_sig s)) allow k s e)) obs
   | CJson k data raw o obs => outcome_eqb (outcome_of (fst (m_json o data raw k data raw))) obs
+  | CVerifyCodes k data sig o w oks panics => sweep_agrees (mo_verify k data sig o) w oks panics
+  | CSctCodes k s e o w oks panics => sweep_agrees (mo_sct k s e o) w oks panics
+  | CSthCodes k s o w oks panics => sweep_agrees (mo_sth k s o) w oks panics
+  | CCreate pk h sign_ok obs => res_codes_eqb (create_signature sign_ok pk h) obs
   end.
 
 (* what the model computes: (outcome, DER view, signature input, JSON trace) *)
@@ -102,4 +159,8 @@ Definition explain (c : case) : option outcome * option (option (Z * Z * N)) * o
   | CSth k s o _ => (Some (outcome_of (m_verify_sth o (ds_sig (sth_sig s)) k s)), Some (der_view (ds_sig (sth_sig s))), Some (sth_siginput s), None)
   | CUtil allow k s e o _ => (Some (outcome_of (m_util o (ds_sig (sct_sig s)) allow k s e)), None, Some (sct_siginput s e), None)
   | CJson k data raw o _ => (Some (outcome_of (fst (m_json o data raw k data raw))), Some (der_view raw), None, Some (snd (m_json o data raw k data raw)))
+  | CVerifyCodes k data sig o w oks panics => (first_disagreement (mo_verify k data sig o) w oks panics, Some (der_view sig), None, None)
+  | CSctCodes k s e o w oks panics => (first_disagreement (mo_sct k s e o) w oks panics, Some (der_view (ds_sig (sct_sig s))), Some (sct_siginput s e), None)
+  | CSthCodes k s o w oks panics => (first_disagreement (mo_sth k s o) w oks panics, Some (der_view (ds_sig (sth_sig s))), Some (sth_siginput s), None)
+  | CCreate pk h sign_ok _ => (Some (outcome_of (create_signature sign_ok pk h)), None, None, None)
   end.
